@@ -1187,8 +1187,9 @@ Proof.
   assert (Hs : strips s = strip r :: strips s').
   { unfold strips. rewrite Hc, Hw, Hc'. reflexivity. }
   rewrite Hs in *. simpl in *.
-  apply StronglySorted_inv in i_ids0, i_seqs0. inversion i_idb0; subst. inversion i_seqb0; subst.
-  rewrite Hc in i_cq0. inversion i_cq0; subst.
+  apply StronglySorted_inv in i_ids0, i_seqs0.
+  apply Forall_inv_tail in i_idb0, i_seqb0.
+  rewrite Hc in i_cq0. apply Forall_inv_tail in i_cq0.
   constructor; simpl; rewrite ?Hid, ?Hsq, ?Hcp, ?Hcl, ?Hw, ?Hc'; auto; try tauto.
   - unfold strips. now rewrite Hw, Hc'.
   - lia.
@@ -1200,18 +1201,17 @@ Proof.
   induction fuel as [|f IH]; intros s m HI; simpl.
   - now apply okr_nil.
   - destruct (cq s) as [|r c] eqn:Ec; [now apply okr_nil|].
-    set (s1 := set_queues (wq s) c (sq_size s - Z.of_N (d_len (q_d r))) (sq_count s - 1) s).
-    set (s2 := set_ctr (next_seq s1) (next_id s1) (next_buf s1) (S (ncb s1)) (nrcb s1) s1).
+    match goal with |- okr m (let '(_, _) := apis fx ?S2 ?B in _) => set (s2 := S2); set (bb := B) end.
     pose proof (cb_step s m r c HI Ec) as St.
     assert (H2 : Inv s2 (mkMon (map skey (map strip (c ++ wq s))) (m_next m) (m_hand m)
                                (m_errs m) (m_closed m))).
     { apply (Inv_pop s m r c s2 HI Ec); reflexivity. }
-    destruct (apis fx s2 (beh (ncb s1))) as [s3 ev] eqn:E3.
+    destruct (apis fx s2 bb) as [s3 ev] eqn:E3.
     destruct (completed_loop fx f beh s3) as [s4 ev'] eqn:E4.
     change (ECb (q_id r) (if 0 <=? q_status r then 0 else q_status r) :: ev ++ ev')
       with ([ECb (q_id r) (if 0 <=? q_status r then 0 else q_status r)] ++ (ev ++ ev')).
     eapply okr_bind.
-    + eexists. simpl. rewrite St. split; [reflexivity|exact H2].
+    + eexists. split; [|exact H2]. cbn [mon_run snd]. rewrite St. reflexivity.
     + intros m1 I1. apply (okr_bind m1 s3 ev s4 ev').
       * rewrite <- E3.
         now apply apis_ok.
@@ -1224,7 +1224,8 @@ Proof.
   destruct (completed_loop fx (length (cq (set_processing true s))) beh (set_processing true s))
     as [s1 ev] eqn:E.
   assert (H0 : Inv (set_processing true s) m) by (eapply Inv_state; eauto).
-  destruct (completed_loop_ok fx beh _ _ _ H0) as (m1 & R1 & I1). rewrite E in R1, I1.
+  destruct (completed_loop_ok fx beh (length (cq (set_processing true s))) _ _ H0) as (m1 & R1 & I1).
+  rewrite E in R1, I1.
   simpl in R1, I1. exists m1. split; [exact R1|]. simpl fst.
   eapply Inv_state; [exact I1| | | | | | | |];
     destruct (wq s1); try destruct (closing s1); simpl; auto.
